@@ -10,7 +10,7 @@ run_one() { # patchfile prop
   S=$(mktemp -d /tmp/verif_mut.XXXXXX)
   rsync -a --exclude .git /repo/ "$S/repo/"
   if ! (cd "$S/repo" && patch -s -p1 < "$pf" >/dev/null 2>&1); then echo "SELFTEST $pf: patch does not apply"; rm -rf "$S"; fail=1; return; fi
-  out=$(VERIF_REPO="$S/repo" VERIF_SCRATCH_OUT="$S/out" ./check "$prop" quick 2>&1); rc=$?
+  out=$(VERIF_NO_REPLAY=1 VERIF_REPO="$S/repo" VERIF_SCRATCH_OUT="$S/out" ./check "$prop" quick 2>&1); rc=$?
   if [ $rc -eq 1 ] && echo "$out" | grep -q "^VIOLATION property=$prop"; then
     echo "killed   $(basename $pf) [$prop]: $(echo "$out" | grep '^VIOLATION' | head -2 | sed 's/.*obligation=//' | tr '\n' ' ')"
   else
